@@ -491,7 +491,7 @@ func c20ExecBytes(ctx *vk.Ctx, c c20BytCase) error {
 	}
 	b1, err := cd.decReflect(re)
 	if err != nil {
-		if c20IsZeroRepr(err) && ctx.Known(c20KnownZeroRepr) {
+		if c20IsZeroRepr(err) && ctx.Known(c20KnownZeroRepr) || c20IsAtoiRange(err) && ctx.Known(c20KnownObjectIDAtoi) {
 			return nil
 		}
 		return fmt.Errorf("%s: accepted %x, re-encoded to %x, which UnmarshalReflect rejects: %v", c.T, in, re, err)
@@ -505,7 +505,7 @@ func c20ExecBytes(ctx *vk.Ctx, c c20BytCase) error {
 	if t.Gen2 {
 		b2, err := cd.decGen(re)
 		if err != nil {
-			if c20IsZeroRepr(err) && ctx.Known(c20KnownZeroRepr) {
+			if c20IsZeroRepr(err) && ctx.Known(c20KnownZeroRepr) || c20IsAtoiRange(err) && ctx.Known(c20KnownObjectIDAtoi) {
 			return nil
 		}
 		return fmt.Errorf("%s: accepted %x, re-encoded to %x, which UnmarshalBinary2 rejects: %v", c.T, in, re, err)
@@ -591,7 +591,7 @@ func c20ExecAnyBytes(ctx *vk.Ctx, w *c20World, t *c20Type, c c20BytCase, in []by
 	}
 	b1 := reflect.New(it)
 	if err := w.cdc.UnmarshalAny(re, b1.Interface()); err != nil {
-		if c20IsZeroRepr(err) && ctx.Known(c20KnownZeroRepr) {
+		if c20IsZeroRepr(err) && ctx.Known(c20KnownZeroRepr) || c20IsAtoiRange(err) && ctx.Known(c20KnownObjectIDAtoi) {
 			return nil
 		}
 		return fmt.Errorf("accepted Any %x, re-encoded to %x, which is rejected: %v", in, re, err)
@@ -660,6 +660,16 @@ func c20IsTooSmallErr(err error) bool {
 // and then rejected by UnmarshalAmino; for params.Param it is Param{}, on
 // which MarshalAmino panics ("invalid param type:").
 const c20KnownZeroRepr = "empty-payload-aminomarshaler-zero-value-not-reencodable"
+
+// c20KnownObjectIDAtoi: ObjectID.UnmarshalAmino parses NewTime (a uint64) with
+// strconv.Atoi (gnolang/ownership.go), so a repr "<hex>:-27" is accepted and
+// becomes NewTime 2^64-27, whose own repr is then rejected (out of int range);
+// more generally NewTime >= 2^63 cannot be decoded.
+const c20KnownObjectIDAtoi = "objectid-newtime-parsed-with-atoi"
+
+func c20IsAtoiRange(err error) bool {
+	return err != nil && strings.Contains(err.Error(), "strconv.Atoi: parsing") && strings.Contains(err.Error(), "value out of range")
+}
 
 func c20IsZeroRepr(err error) bool {
 	return err != nil && c20IsZeroReprMsg(err.Error())
